@@ -56,6 +56,12 @@ func init() {
 					probe.Op{Op: "get", Name: name}, probe.Op{Op: "tagged", Name: d.Tag})
 			}
 			u := &probe.Unit{ID: idOf(i), Cfg: conf, Files: gen.Split(r, conf, i%4), Ops: ops}
+			if i%5 == 4 {
+				// decorators (applied in declaration order) spread over prefix-related sibling directories read through one wildcard:
+				// the declaration order is the lexical order of the cleaned paths
+				u.Files, u.Patterns = gen.GlobLayout(r, conf)
+				c.Add("units_read_through_one_wildcard_over_sibling_directories", 1)
+			}
 			units = append(units, u)
 		}
 		// a decorator of the configuration's own package whose name is spelled like a variable the generated code uses while it
